@@ -365,3 +365,91 @@ def check(prog, run):
             run.report(r, "py_gql.utilities.ast_node_from_value:_object_value_node_from_value:provided-member-dropped", ov.where(st) if st is not None else ov.where(loops[0]),
                        "a member present in the value can be left out of the printed object literal (when %s)" % cond)
             break
+
+    # ---- P10 an argument's description is printed whenever one argument has one
+    r = run.rule("P10", "ASTSchemaPrinter.print_arguments: with descriptions enabled, the form that prints no argument descriptions is "
+                        "chosen only when no argument has one — the quantified test over the arguments' `.description` is folded for the "
+                        "presence vectors (T), (F), (T,F), (F,T), (T,T), (F,F) and must equal `some argument is described`; a form "
+                        "chosen by `all(...)` drops the descriptions of a partly described argument list from the printed schema", 1)
+    pa = prog.get_func("py_gql.sdl.ast_schema_printer", "ASTSchemaPrinter.print_arguments")
+    run.looked_at(pa)
+    argv = pa.params[1]
+
+    class _Unknown(Exception):
+        pass
+
+    def fold(e, vec, binding):
+        """value of a quantified expression over the argument list for one presence vector (True = described)"""
+        if isinstance(e, ast.Call) and isinstance(e.func, ast.Name) and e.func.id in ("any", "all") and len(e.args) == 1 \
+                and isinstance(e.args[0], (ast.GeneratorExp, ast.ListComp)) and len(e.args[0].generators) == 1:
+            g = e.args[0].generators[0]
+            if not (isinstance(g.iter, ast.Name) and g.iter.id == argv and isinstance(g.target, ast.Name)):
+                raise _Unknown()
+            vals = []
+            for d in vec:
+                b = dict(binding)
+                b[g.target.id] = d
+                if all(fold(c, vec, b) for c in g.ifs):
+                    vals.append(fold(e.args[0].elt, vec, b))
+            return any(vals) if e.func.id == "any" else all(vals)
+        if isinstance(e, ast.Attribute) and e.attr == "description" and isinstance(e.value, ast.Name) and e.value.id in binding:
+            return binding[e.value.id]
+        if isinstance(e, ast.Call) and isinstance(e.func, ast.Name) and e.func.id == "bool" and len(e.args) == 1:
+            return bool(fold(e.args[0], vec, binding))
+        if isinstance(e, ast.UnaryOp) and isinstance(e.op, ast.Not):
+            return not fold(e.operand, vec, binding)
+        if isinstance(e, ast.BoolOp):
+            vals = [fold(v, vec, binding) for v in e.values]
+            return all(vals) if isinstance(e.op, ast.And) else any(vals)
+        if isinstance(e, ast.Compare) and len(e.ops) == 1 and isinstance(e.ops[0], (ast.Is, ast.IsNot)) \
+                and isinstance(e.comparators[0], ast.Constant) and e.comparators[0].value is None:
+            v = fold(e.left, vec, binding)
+            return (not v) if isinstance(e.ops[0], ast.Is) else bool(v)
+        raise _Unknown()
+
+    quantified = []
+    for n in own_nodes(pa.node):
+        if isinstance(n, ast.Call) and isinstance(n.func, ast.Name) and n.func.id in ("any", "all") and any(
+                isinstance(x, ast.Attribute) and x.attr == "description" for x in ast.walk(n)):
+            quantified.append(n)
+    if len(quantified) != 1:
+        raise AnalysisError("C12.P10: the test over the arguments' descriptions was not recognised in print_arguments (%d candidates)" % len(quantified))
+    q = quantified[0]
+    qtxt = boolx.text(q)
+    try:
+        table = {vec: fold(q, vec, {}) for vec in ((True,), (False,), (True, False), (False, True), (True, True), (False, False))}
+    except _Unknown:
+        raise AnalysisError("C12.P10: cannot fold `%s`" % qtxt)
+    # which branch prints descriptions: the one that reaches print_description
+    def decide_factory(val):
+        def decide(t):
+            if t == qtxt:
+                return val
+            if "include_descriptions" in t:
+                return True
+            if t == argv:
+                return True      # a non-empty argument list
+            return None
+        return decide
+    described_when = {}
+    for val in (True, False):
+        try:
+            _ev, exits = boolx.walk_under(pa.node, decide_factory(val))
+        except ValueError as e:
+            raise AnalysisError("C12.P10: %s" % e)
+        prints = set()
+        for kind, st, env in exits:
+            if kind != "return":
+                continue
+            calls = {c.func.attr for c in env.get(boolx.CALLS, ()) if isinstance(c.func, ast.Attribute)}
+            prints.add("print_description" in calls)
+        described_when[val] = prints
+    r.instance("`%s` folds to %s; descriptions printed when it is True: %s, when False: %s"
+               % (qtxt, {"".join("T" if d else "F" for d in k): v for k, v in table.items()}, sorted(described_when[True]), sorted(described_when[False])))
+    for vec, val in sorted(table.items()):
+        if any(vec) and False in described_when[val]:
+            run.report(r, "py_gql.sdl.ast_schema_printer:ASTSchemaPrinter.print_arguments:description-dropped", pa.where(q),
+                       "for an argument list whose descriptions are %s the test `%s` is %s and print_arguments takes the form without "
+                       "descriptions: the described argument's description is missing from the printed schema"
+                       % ("/".join("present" if d else "absent" for d in vec), qtxt, val))
+            break
